@@ -514,6 +514,33 @@ static void float_equality() {
 	}
 }
 
+// ---- an intrusive list (and its nodes) with static storage duration that is filled while other namespace-scope objects are still
+// being constructed (driver registries, the kernel's list of CPUs): list and hook have constexpr constructors, so both are
+// constant-initialised and what the constructor of an *earlier* global linked is still linked when main() starts.
+struct ENode { int id = 0; frg::default_list_hook<ENode> hook; }; // (every member initialised: otherwise the node itself is not constant-initialised)
+using EList = frg::intrusive_list<ENode, frg::locate_member<ENode, frg::default_list_hook<ENode>, &ENode::hook>>;
+extern EList g_early_list;
+extern ENode g_early_nodes[3];
+static struct EarlyLinker { EarlyLinker() { for(int i = 0; i < 3; i++) g_early_nodes[i].id = 100 + i; g_early_list.push_back(&g_early_nodes[0]); g_early_list.push_back(&g_early_nodes[1]); g_early_list.push_front(&g_early_nodes[2]); } } g_early_linker;
+EList g_early_list;
+ENode g_early_nodes[3];
+static void static_init_case() {
+	begin_case("static-init", 0);
+	std::vector<int> got; size_t guard = 0;
+	for(auto it = g_early_list.begin(); it != g_early_list.end() && guard < 10; ++it, ++guard) got.push_back((*it)->id);
+	if(got != std::vector<int>{102, 100, 101}) {
+		std::string g; for(int x : got) g += std::to_string(x) + " ";
+		if(g_model_armed) violation("C13:model:intrusive_list:static-init", "a namespace-scope intrusive_list filled by the constructor of an earlier global holds [" + g + "] when main() starts, expected [102 100 101]");
+	} else {
+		// and the list still works: drain it, the hooks must come back unlinked
+		int order[3] = {102, 100, 101};
+		for(int i = 0; i < 3; i++) { ENode *n = g_early_list.pop_front(); if((!n || n->id != order[i]) && g_model_armed) { violation("C13:model:intrusive_list:static-init", "pop_front() of a list filled during static initialisation returns a wrong node"); break; } }
+		if(!g_early_list.empty() && g_model_armed) violation("C13:model:intrusive_list:static-init", "a drained list filled during static initialisation is not empty");
+	}
+	count("intrusive_lists_filled_during_static_initialisation");
+	note_distinct(mix(0xE2, 1));
+}
+
 int main(int argc, char **argv) {
 	parse_args(argc, argv, "containers");
 	if(opt.replay_arg.find("prop=C16") != std::string::npos) g_prop = "C16";
@@ -522,6 +549,7 @@ int main(int argc, char **argv) {
 	rec.rule = "a case is one operation sequence on a pair of containers (a,b) of one type, compared with reference sequences after every operation and with the "
 		"element/allocation registries after destruction; distinct = hash of (type, op codes, parameter classes); random sequences with < 3 ops are not counted";
 	bool t = opt.thorough();
+	if(want_mode("static-init") && want_case(0)) static_init_case();
 	run_elem_family<Pod>(t);
 	run_elem_family<Elem>(t);
 	// a trivially copyable element type whose default value is not all-zero bytes
